@@ -70,6 +70,21 @@ inline void add_exec_counters(JudgeOut &out, const RunResult &r)
 			out.states.push_back(fnv64(o.dump));
 }
 
+// interleaving fingerprint of a plan with more than one client
+inline void note_schedule(JudgeOut &out, const json &plan)
+{
+	std::string sched;
+	bool multi = false;
+	for (auto &st : plan["steps"]) {
+		int cl = st.value("cl", 0);
+		if (cl != 0)
+			multi = true;
+		sched += std::to_string(cl) + ":" + st["op"].get<std::string>() + ",";
+	}
+	if (multi)
+		out.schedules.push_back(fnv64(sched));
+}
+
 inline std::string death_name(DeathKind d)
 {
 	switch (d) {
